@@ -52,6 +52,15 @@ func genC06(t *rapid.T) c06Case {
 			v := core.GenStructVal(t, cfg, s)
 			st.S = s
 			st.Msg, _ = genWireMsg(t, s, v, wireEditCfg{Shuffle: true, Insert: true, Dup: true, MaxInsert: 2})
+			if rapid.IntRange(0, 5).Draw(t, "cut") == 0 && len(st.Msg) > 1 {
+				// a message that ends early, at the end of some value inside it or anywhere: the call fails
+				// after it has stored part of the object
+				if cuts := boundaryCuts(st.Msg); len(cuts) > 0 && rapid.Bool().Draw(t, "cutboundary") {
+					st.Msg = st.Msg[:rapid.SampledFrom(cuts).Draw(t, "cutat")]
+				} else {
+					st.Msg = st.Msg[:rapid.IntRange(1, len(st.Msg)-1).Draw(t, "cutany")]
+				}
+			}
 		}
 		c.Steps = append(c.Steps, st)
 	}
@@ -183,6 +192,8 @@ type liveObj struct {
 	step int
 	// the input has been overwritten: nocopy fields no longer count
 	clobbered bool
+	// the decode failed: only the stability of what it left behind is checked
+	failed bool
 }
 
 func overlapIn(ext []extent) (extent, extent, bool) {
@@ -205,6 +216,7 @@ func runC06(w *worker) func(c c06Case) *Failure {
 		nExt := 0
 		clobberedThenGC := false
 		clobbered := false
+		failedKept := 0
 		check := func(stepNo int, what string) *Failure {
 			var all []extent
 			for _, o := range live {
@@ -238,6 +250,21 @@ func runC06(w *worker) func(c c06Case) *Failure {
 					return f
 				}
 				if verdict.Kind != core.VOK {
+					// what a failing call has stored before the error is memory of that call as well: the
+					// destination is kept and must read the same after every later step (no model needed)
+					if err != nil {
+						var snap *core.SVal
+						if f := safely("reading the destination of a failed decode", func() { snap = o.b.Lift(o.dest.Elem()) }); f != nil {
+							return f
+						}
+						o.snap = snap
+						o.failed = true
+						live = append(live, o)
+						if len(live) > 6 {
+							live = live[1:]
+						}
+						failedKept++
+					}
 					continue
 				}
 				if err != nil || n != verdict.N {
@@ -279,6 +306,9 @@ func runC06(w *worker) func(c c06Case) *Failure {
 					break
 				}
 				src := live[st.Target%len(live)]
+				if src.failed {
+					break
+				}
 				msg := c.Steps[src.step].Msg
 				reps := 120 + (st.Target*37)%200
 				var last *liveObj
@@ -366,6 +396,9 @@ func runC06(w *worker) func(c c06Case) *Failure {
 		}
 		if ptrBearing {
 			labels = append(labels, "pointer-bearing-backing-array")
+		}
+		if failedKept > 0 {
+			labels = append(labels, "destination-of-failed-decode-kept")
 		}
 		w.count(nontriv, key, map[string]interface{}{"history": ops, "extents": nExt}, labels...)
 		return nil
